@@ -133,6 +133,8 @@ class Interp:
         self.last_env = None
         self.namedtuples = self._collect_namedtuples()
         self.trace_calls = []
+        from .effects import written_globals
+        self.unstable = set(written_globals(repo))
 
     # ----------------------------------------------------------- named tuples
     def _collect_namedtuples(self):
@@ -795,7 +797,8 @@ class Interp:
         if name in mod.assigns:
             vals = mod.assigns[name]
             if len(vals) == 1 and isinstance(vals[0], ast.Constant) \
-                    and isinstance(vals[0].value, (str, bytes, type(None))):
+                    and isinstance(vals[0].value, (str, bytes, type(None))) \
+                    and (fi.module, name) not in self.unstable:
                 return const(vals[0].value)
             return ("glob", f"{fi.module}.{name}")
         imp = mod.imports.get(name)
@@ -854,7 +857,8 @@ class Interp:
                 return ("ref", f"{mn}:{e.attr}")
             if e.attr in m2.assigns:
                 vals = m2.assigns[e.attr]
-                if len(vals) == 1 and isinstance(vals[0], ast.Constant):
+                if len(vals) == 1 and isinstance(vals[0], ast.Constant) \
+                        and (mn, e.attr) not in self.unstable:
                     return const(vals[0].value)
                 return ("glob", f"{mn}.{e.attr}")
             imp = m2.imports.get(e.attr)
